@@ -201,7 +201,7 @@ def _load_helper_mo(lit: LineIterator, n_basis: int, n_mo: int) -> dict:
         "mo_type": np.empty(n_mo, int),
         "mo_energies": np.empty(n_mo, float),
         "mo_occs": np.empty(n_mo, float),
-        "mo_sym": np.empty(n_mo, str),
+        "mo_sym": np.empty(n_mo, object),
         "mo_coeffs": np.empty([n_basis, n_mo], float),
     }
 
@@ -219,6 +219,8 @@ def _load_helper_mo(lit: LineIterator, n_basis: int, n_mo: int) -> dict:
         # skip "$Coeff line
         next(lit)
         data["mo_coeffs"][:, index] = _load_helper_section(lit, n_basis, "", 0, float)
+    # Symmetry labels can have any length, e.g. "A1g".
+    data["mo_sym"] = data["mo_sym"].astype(str)
 
     return data
 
